@@ -64,7 +64,7 @@ theorem pc_of_map_eq {ws ws' : List Waiter} (h : ws'.map (·.pc) = ws.map (·.pc
 
 theorem stepExiter_pcs (sh : Sh) (ws : List Waiter) (ex : Exiter) :
     (stepExiter sh ws ex).2.1.map (·.pc) = ws.map (·.pc) := by
-  obtain ⟨pc, post, lc⟩ := ex
+  obtain ⟨pc, post, lc, armed, unwound⟩ := ex
   cases pc <;> simp only [stepExiter] <;>
     first
     | rfl
@@ -122,6 +122,13 @@ theorem other_steps_keep_pc (g : G) (tid : Tid) (i : Nat) (h1 : tid ≠ .w i) (h
                             waiters := (notifyOne g.sh (g.waiters.set k { w with pc := .abandoned })).2 }) hp i
           exact this.trans (pcOf_set_ne g g.sh k i _ hk)
         · exact pcOf_set_ne g g.sh k i _ hk
+  | d k => simp only [step]; split <;> rfl
+  | succ => simp only [step]; split <;> rfl
+  | unwind =>
+    simp only [step]
+    split
+    · rfl
+    · split <;> (try split) <;> rfl
 
 theorem pcOf_own_step (g : G) (i : Nat) (w : Waiter) (hi : g.waiters[i]? = some w) :
     pcOf (step g (.w i)) i = some (stepWaiter g.sh (okNow g) w).2.pc := by
@@ -133,8 +140,8 @@ theorem finished_step (g : G) (tid : Tid) (h : g.exiter.finished = true) :
     (step g tid).exiter.finished = true := by
   cases tid with
   | e =>
-    obtain ⟨sh, ex, setters, ws⟩ := g
-    obtain ⟨pc, post, lc⟩ := ex
+    obtain ⟨sh, ex, setters, ws, drs⟩ := g
+    obtain ⟨pc, post, lc, armed, unwound⟩ := ex
     simp only [step]
     cases pc <;> simp only [Exiter.finished, Bool.false_eq_true] at h
     · rename_i c rest
@@ -155,14 +162,23 @@ theorem finished_step (g : G) (tid : Tid) (h : g.exiter.finished = true) :
       · exact h
       · exact h
       · split <;> exact h
+  | d k => simp only [step]; split <;> exact h
+  | succ => simp only [step]; split <;> exact h
+  | unwind =>
+    simp only [step]
+    split
+    · exact h
+    · obtain ⟨sh, ex, st, ws, drs⟩ := g
+      obtain ⟨pc, post, lc, armed, unwound⟩ := ex
+      cases pc <;> simp only [Exiter.finished, Bool.false_eq_true] at h <;> rfl
 
 theorem finished_stage {ex : Exiter} (h : ex.finished = true) : ex.pc.stage = 15 := by
-  obtain ⟨pc, post, lc⟩ := ex
+  obtain ⟨pc, post, lc, armed, unwound⟩ := ex
   cases pc <;> simp only [Exiter.finished, Bool.false_eq_true] at h <;> rfl
 
 /-- **Progress.** Once the exiter has finished, every step of a waiter that has not returned
 moves it strictly closer to returning: it is never blocked. -/
-theorem waiter_progress (g : G) (i : Nat) (h : Inv g) (hf : g.exiter.finished = true)
+theorem waiter_progress (g : G) (i : Nat) (h : InvCore g) (hf : g.exiter.finished = true)
     (hr : 0 < remaining g i) : remaining (step g (.w i)) i < remaining g i := by
   cases hi : g.waiters[i]? with
   | none => simp [remaining, pcOf, hi] at hr
@@ -213,6 +229,13 @@ theorem length_step (g : G) (tid : Tid) : (step g tid).waiters.length = g.waiter
         · have := congrArg List.length (notifyOne_pcs g.sh (g.waiters.set k { (‹Waiter›) with pc := .abandoned }))
           simpa using this
         · simp
+  | d k => simp only [step]; split <;> rfl
+  | succ => simp only [step]; split <;> rfl
+  | unwind =>
+    simp only [step]
+    split
+    · rfl
+    · split <;> (try split) <;> rfl
 
 theorem stepWaiter_not_abandoned (sh : Sh) (fl : Bool) (w : Waiter) (h : w.pc ≠ .abandoned) :
     (stepWaiter sh fl w).2.pc ≠ .abandoned := by
@@ -236,52 +259,6 @@ theorem own_step_not_abandoned (g : G) (i : Nat) (ha : isAbandoned g i = false) 
     generalize (stepWaiter g.sh (okNow g) w).2.pc = pc at *
     cases pc <;> simp_all
 
-/-- **No lost wake-up (fairness form).** From any reachable state in which the exiter has
-finished, a waiter that is scheduled three times (whatever else runs in between, including other
-waiters being abandoned) and is not itself abandoned has returned. -/
-theorem returns_when_scheduled (g : G) (i : Nat) (sched : List Tid) (h : Inv g)
-    (hf : g.exiter.finished = true) (hi : i < g.waiters.length) (ha : isAbandoned g i = false)
-    (hcount : remaining g i ≤ sched.count (.w i)) (hna : Tid.abandon i ∉ sched) :
-    isReturned (run g sched) i = true := by
-  induction sched generalizing g with
-  | nil =>
-    simp only [List.count_nil, Nat.le_zero_eq] at hcount
-    exact returned_of_remaining_zero g i hi hcount ha
-  | cons t l ih =>
-    simp only [run, List.foldl_cons]
-    have hna' : Tid.abandon i ∉ l := fun hm => hna (List.mem_cons_of_mem _ hm)
-    have hta : t ≠ .abandon i := fun e => hna (e ▸ List.mem_cons_self)
-    have hlen := length_step g t
-    by_cases ht : t = .w i
-    · subst ht
-      simp only [List.count_cons_self] at hcount
-      refine ih (step g (.w i)) (inv_step g _ h) (finished_step g _ hf) (by omega)
-        (own_step_not_abandoned g i ha) ?_ hna'
-      by_cases hr : 0 < remaining g i
-      · have := waiter_progress g i h hf hr; omega
-      · have h0 : remaining g i = 0 := by omega
-        -- a returned waiter stays where it is
-        have : remaining (step g (.w i)) i = 0 := by
-          cases hw : g.waiters[i]? with
-          | none =>
-            have : step g (.w i) = g := by simp [step, hw]
-            rw [this]; exact h0
-          | some w =>
-            have e1 : remaining g i = w.pc.rank := by simp [remaining, pcOf, hw]
-            have e2 : remaining (step g (.w i)) i = (stepWaiter g.sh (okNow g) w).2.pc.rank := by
-              simp [remaining, pcOf_own_step g i w hw]
-            rw [e1] at h0; rw [e2]
-            obtain ⟨pc, wk⟩ := w
-            cases pc <;> simp_all [WPc.rank, stepWaiter]
-        omega
-    · have hk := other_steps_keep_pc g t i ht hta
-      have hc : (t :: l).count (.w i) = l.count (.w i) := by
-        simp [List.count_cons, ht]
-      have hr : remaining (step g t) i = remaining g i := by simp [remaining, hk]
-      have hab : isAbandoned (step g t) i = isAbandoned g i := by simp [isAbandoned, hk]
-      refine ih (step g t) (inv_step g _ h) (finished_step g _ hf) (by omega) (hab ▸ ha) ?_ hna'
-      rw [hr]; omega
-
 /-! ### Once-only elections and monotone status (any `set_status` callers, any values) -/
 
 structure OnceInv (sh : Sh) : Prop where
@@ -302,8 +279,8 @@ theorem step_once (g : G) (tid : Tid) (h : OnceInv g.sh) :
     exact ⟨⟨by rw [e1, e2]; exact h.cleanup, by rw [e1, e3]; exact h.notify⟩, by omega⟩
   cases tid with
   | e =>
-    obtain ⟨sh, ex, setters, ws⟩ := g
-    obtain ⟨pc, post, lc⟩ := ex
+    obtain ⟨sh, ex, setters, ws, drs⟩ := g
+    obtain ⟨pc, post, lc, armed, unwound⟩ := ex
     simp only [step]
     cases pc <;> simp only [stepExiter] <;>
       first
@@ -341,6 +318,22 @@ theorem step_once (g : G) (tid : Tid) (h : OnceInv g.sh) :
       · split
         · simp only [notifyOne]; split <;> exact flagsOnly _ rfl rfl rfl
         · exact flagsOnly _ rfl rfl rfl
+  | d k =>
+    simp only [step]
+    split
+    · obtain ⟨h1, h2⟩ := h
+      by_cases hlt : g.sh.status < stStopping
+      · simp only [hlt, if_true]
+        refine ⟨⟨?_, ?_⟩, ?_⟩ <;> simp only [stStopping, stStopped, stDraining] at * <;> grind
+      · simp only [hlt, if_false]
+        exact ⟨⟨h1, h2⟩, Nat.le_refl _⟩
+    · exact flagsOnly _ rfl rfl rfl
+  | succ => simp only [step]; split <;> exact flagsOnly _ rfl rfl rfl
+  | unwind =>
+    simp only [step]
+    split
+    · exact flagsOnly _ rfl rfl rfl
+    · split <;> (try split) <;> exact flagsOnly _ rfl rfl rfl
 
 theorem run_once (g : G) (sched : List Tid) (h : OnceInv g.sh) :
     OnceInv (run g sched).sh ∧ g.sh.status ≤ (run g sched).sh.status := by
@@ -355,11 +348,11 @@ theorem run_once (g : G) (sched : List Tid) (h : OnceInv g.sh) :
 
 /-- The exiter is never blocked: each of its steps moves it to a strictly later stage of the exit
 sequence, until it has finished. -/
-theorem exiter_progress (g : G) (h : Inv g) (hf : g.exiter.finished = false) :
+theorem exiter_progress (g : G) (h : InvCore g) (hf : g.exiter.finished = false) :
     g.exiter.pc.stage < (step g .e).exiter.pc.stage := by
   obtain ⟨hv, hs, hw, hset⟩ := h
-  obtain ⟨sh, ex, setters, ws⟩ := g
-  obtain ⟨pc, post, lateCalls⟩ := ex
+  obtain ⟨sh, ex, setters, ws, drs⟩ := g
+  obtain ⟨pc, post, lateCalls, armed, unwound⟩ := ex
   simp only at hv hs hw hf
   cases pc with
   | set1 c =>
@@ -414,14 +407,8 @@ theorem exiter_progress (g : G) (h : Inv g) (hf : g.exiter.finished = false) :
   | done => simp [Exiter.finished] at hf
 
 
-theorem stage_finished {g : G} (h : g.exiter.pc.stage = 15) : (run g []).exiter.finished = true := by
-  show g.exiter.finished = true
-  obtain ⟨sh, ex, st, ws⟩ := g
-  obtain ⟨pc, post, lc⟩ := ex
-  simp only at h ⊢
-  cases pc <;> (try rename_i c; cases c) <;> simp [EPc.stage] at h <;> rfl
-
-theorem other_steps_keep_exiter (g : G) (tid : Tid) (h : tid ≠ .e) : (step g tid).exiter = g.exiter := by
+theorem other_steps_keep_exiter (g : G) (tid : Tid) (h : tid ≠ .e) (h' : tid ≠ .unwind) :
+    (step g tid).exiter = g.exiter := by
   cases tid with
   | e => exact absurd rfl h
   | s k => simp only [step]; split <;> rfl
@@ -434,36 +421,443 @@ theorem other_steps_keep_exiter (g : G) (tid : Tid) (h : tid ≠ .e) : (step g t
       · rfl
       · rfl
       · split <;> rfl
+  | d k => simp only [step]; split <;> rfl
+  | succ => simp only [step]; split <;> rfl
+  | unwind => exact absurd rfl h'
 
-/-- The exit sequence always completes: whatever else is scheduled in between, after 15 steps of
-the exiter it has finished (`notify_one` of the final `set_status(Stopped)` executed). -/
-theorem exiter_finishes (g : G) (sched : List Tid) (h : Inv g)
-    (hcount : 15 - g.exiter.pc.stage ≤ sched.count .e) : (run g sched).exiter.finished = true := by
+/-! ### Drainers, a successor taking the freed name, and a panicking cleanup statement -/
+
+theorem WOk.down {gen n n' : Nat} {w : Waiter} (h : WOk gen n w) (hn : n ≤ 11) (hn' : n' ≤ 11) :
+    WOk gen n' w := by
+  obtain ⟨h1, h2, h3, h4, h5⟩ := h
+  refine ⟨h1, fun ok hok => ?_, fun a => ?_, fun a => ?_, fun a => by omega⟩
+  · have := (h2 ok hok).2; omega
+  · have := h3 a; omega
+  · have := h4 a; omega
+
+/-- `drain()`'s `fetch_update` keeps every stage fact: it only lifts a status below `Stopping` to
+`Draining`, which is possible only before the exit has started. -/
+theorem core_d (g : G) (i : Nat) (h : InvCore g) : InvCore (step g (.d i)) := by
+  simp only [step]
+  split
+  · refine ⟨h.valid, ?_, h.ws, h.setters⟩
+    obtain ⟨a1,a2,a3,a4,a5,a6,a7,a8,a9,a10,a11,a12,a13,a14,a15,a16⟩ := h.sh
+    by_cases hlt : g.sh.status < stStopping
+    · simp only [hlt, if_true]
+      constructor <;> simp only [stStopping, stStopped, stDraining] at * <;> grind
+    · simp only [hlt, if_false]
+      exact ⟨a1,a2,a3,a4,a5,a6,a7,a8,a9,a10,a11,a12,a13,a14,a15,a16⟩
+  · exact h
+
+theorem core_succ (g : G) (h : InvCore g) : InvCore (step g .succ) := by
+  simp only [step]
+  split
+  · obtain ⟨a1,a2,a3,a4,a5,a6,a7,a8,a9,a10,a11,a12,a13,a14,a15,a16⟩ := h.sh
+    exact ⟨h.valid, ⟨a1,a2,a3,a4,a5,a6,a7,a8,a9,a10,a11,a12,a13,a14,a15,a16⟩, h.ws, h.setters⟩
+  · exact h
+
+/-- A statement of `cleanup` panics while the guard is still armed: `cleanup` starts again from
+its first statement; everything established so far stays established. -/
+theorem core_unwind (g : G) (h : InvCore g) (harm : g.exiter.pc.stage ≤ 14 → g.exiter.armed = true) :
+    InvCore (step g .unwind) := by
+  obtain ⟨hv, hs, hw, hset⟩ := h
+  obtain ⟨sh, ex, setters, ws, drs⟩ := g
+  obtain ⟨pc, post, lateCalls, armed, unwound⟩ := ex
+  simp only at hv hs hw harm
+  simp only [step]
+  split
+  · exact ⟨hv, hs, hw, hset⟩
+  · have restart : ∀ n, pc.stage = n → 7 ≤ n → n ≤ 9 →
+        InvCore ⟨sh, ⟨.set2 (.publish stStopping), post, lateCalls, armed, true⟩, setters, ws, drs⟩ := by
+      intro n hn h7 h9
+      refine ⟨by simp [EPc.valid], ?_, fun w hm => ?_, hset⟩
+      · rw [hn] at hs
+        obtain ⟨a1,a2,a3,a4,a5,a6,a7,a8,a9,a10,a11,a12,a13,a14,a15,a16⟩ := hs
+        constructor <;> simp only [EPc.stage, stStopping, stStopped] at * <;> grind
+      · have := hw w hm
+        rw [hn] at this
+        exact this.down (by omega) (by simp [EPc.stage])
+    cases pc <;> simp only
+    case terminate =>
+      have ha : armed = true := harm (by simp [EPc.stage])
+      subst ha
+      simp only [if_true]; exact restart 7 rfl (by omega) (by omega)
+    case notifySup =>
+      have ha : armed = true := harm (by simp [EPc.stage])
+      subst ha
+      simp only [if_true]; exact restart 8 rfl (by omega) (by omega)
+    case unlink =>
+      have ha : armed = true := harm (by simp [EPc.stage])
+      subst ha
+      simp only [if_true]; exact restart 9 rfl (by omega) (by omega)
+    all_goals exact ⟨hv, hs, hw, hset⟩
+
+/-- only the `status.unreg_name` step touches the name entry -/
+theorem stepSet_name (sh : Sh) (ws : List Waiter) (c : SPc) (h : ∀ s p, c ≠ .unregName s p) :
+    (stepSet sh ws c).1.name = sh.name := by
+  cases c <;> simp only [stepSet, notifyOne] <;> (try split) <;> (try split) <;>
+    first | rfl | exact absurd rfl (h _ _)
+
+theorem stepExiter_name (sh : Sh) (ws : List Waiter) (ex : Exiter)
+    (h : ∀ s p, ex.pc ≠ .set1 (.unregName s p) ∧ ex.pc ≠ .set2 (.unregName s p)
+      ∧ ex.pc ≠ .set3 (.unregName s p) ∧ ∀ r, ex.pc ≠ .late (.unregName s p) r) :
+    (stepExiter sh ws ex).1.name = sh.name := by
+  obtain ⟨pc, post, lc, armed, unwound⟩ := ex
+  simp only at h
+  cases pc <;> simp only [stepExiter] <;>
+    first
+    | rfl
+    | (rename_i c
+       have hc : ∀ s p, c ≠ .unregName s p := fun s p e => by
+         have := h s p; simp_all
+       have := stepSet_name sh ws c hc; revert this
+       generalize stepSet sh ws c = r; obtain ⟨a, b, c'⟩ := r; intro this; cases c' <;> exact this)
+    | (rename_i c rest
+       have hc : ∀ s p, c ≠ .unregName s p := fun s p e => by
+         have := (h s p).2.2.2 rest; simp_all
+       have := stepSet_name sh ws c hc; revert this
+       generalize stepSet sh ws c = r; obtain ⟨a, b, c'⟩ := r; intro this; cases c' <;> exact this)
+
+/-- the guard is disarmed only when the exit sequence has finished -/
+theorem stepExiter_armed (sh : Sh) (ws : List Waiter) (ex : Exiter) :
+    (stepExiter sh ws ex).2.2.armed = ex.armed ∨ (stepExiter sh ws ex).2.2.pc.stage = 15 := by
+  obtain ⟨pc, post, lc, armed, unwound⟩ := ex
+  cases pc with
+  | set1 c =>
+    simp only [stepExiter]; generalize stepSet sh ws c = r; obtain ⟨a, b, c'⟩ := r
+    cases c' <;> exact Or.inl rfl
+  | set2 c =>
+    simp only [stepExiter]; generalize stepSet sh ws c = r; obtain ⟨a, b, c'⟩ := r
+    cases c' <;> exact Or.inl rfl
+  | set3 c =>
+    simp only [stepExiter]; generalize stepSet sh ws c = r; obtain ⟨a, b, c'⟩ := r
+    cases c' with
+    | some c'' => exact Or.inl rfl
+    | none => right; cases lc <;> rfl
+  | late c rest =>
+    simp only [stepExiter]; generalize stepSet sh ws c = r; obtain ⟨a, b, c'⟩ := r
+    cases c' <;> exact Or.inl rfl
+  | _ => exact Or.inl rfl
+
+theorem stage_step_e (g : G) (h : InvCore g) : g.exiter.pc.stage ≤ (step g .e).exiter.pc.stage := by
+  cases hf : g.exiter.finished
+  · exact Nat.le_of_lt (exiter_progress g h hf)
+  · rw [finished_stage hf, finished_stage (finished_step g .e hf)]
+    exact Nat.le_refl _
+
+/-- The full invariant: the stage facts, plus: the name entry still belongs to the exiting actor
+exactly as long as `status.unreg_name` has not been executed, and the lifecycle guard stays armed
+until the exit sequence has finished. -/
+structure Inv (g : G) : Prop extends InvCore g where
+  name : g.sh.name ≠ .self → 3 ≤ g.exiter.pc.stage
+  armed : g.exiter.pc.stage ≤ 14 → g.exiter.armed = true
+
+theorem valid_not_unreg {pc : EPc} (hv : pc.valid = true) (h2 : pc.stage ≠ 2) (s p : Nat) :
+    pc ≠ .set1 (.unregName s p) ∧ pc ≠ .set2 (.unregName s p) ∧ pc ≠ .set3 (.unregName s p)
+      ∧ ∀ r, pc ≠ .late (.unregName s p) r := by
+  refine ⟨fun e => ?_, fun e => ?_, fun e => ?_, fun r e => ?_⟩ <;>
+    (subst e; simp_all [EPc.valid, EPc.stage])
+
+theorem inv_step (g : G) (tid : Tid) (h : Inv g) : Inv (step g tid) := by
+  have hc := h.toInvCore
+  cases tid with
+  | e =>
+    have hst := stage_step_e g hc
+    refine { toInvCore := inv_e g hc, name := ?_, armed := ?_ }
+    · intro hn
+      by_cases h2 : g.exiter.pc.stage = 2
+      · have := exiter_progress g hc (by
+          cases hf : g.exiter.finished
+          · rfl
+          · have := finished_stage hf; omega)
+        omega
+      · have hname : (step g .e).sh.name = g.sh.name := by
+          simp only [step]
+          exact stepExiter_name _ _ _ (valid_not_unreg hc.valid h2)
+        have := h.name (hname ▸ hn)
+        omega
+    · intro h14
+      have hex : (step g .e).exiter = (stepExiter g.sh g.waiters g.exiter).2.2 := rfl
+      rcases stepExiter_armed g.sh g.waiters g.exiter with e | e
+      · rw [hex, e]; exact h.armed (by omega)
+      · rw [hex] at h14; omega
+  | s i =>
+    refine { toInvCore := inv_s g i hc, name := ?_, armed := ?_ } <;>
+    · simp only [step]
+      split
+      · first | exact h.name | exact h.armed
+      · rename_i t ht
+        obtain ⟨call, rest⟩ := t
+        have key : ∀ c, ¬ (∃ s p, c = SPc.unregName s p) →
+            (stepSet g.sh g.waiters c).1.name = g.sh.name :=
+          fun c hne => stepSet_name _ _ c (fun s p e => hne ⟨s, p, e⟩)
+        -- a setter below `Stopping` only publishes
+        have hall := hc.setters
+        simp only [settersBelowStopping] at hall
+        have hmem : (⟨call, rest⟩ : Setter) ∈ g.setters := List.mem_of_getElem? ht
+        have ht' := List.all_eq_true.mp hall _ hmem
+        simp only [Bool.and_eq_true] at ht'
+        cases call with
+        | none =>
+          cases rest with
+          | nil => first | exact h.name | exact h.armed
+          | cons s rest =>
+            simp only [stepSetter]
+            first
+            | (rw [key (.publish s) (by rintro ⟨_, _, e⟩; cases e)]; exact h.name)
+            | exact h.armed
+        | some c =>
+          cases c with
+          | publish s =>
+            simp only [stepSetter]
+            first
+            | (rw [key (.publish s) (by rintro ⟨_, _, e⟩; cases e)]; exact h.name)
+            | exact h.armed
+          | _ => simp at ht'
+  | w i =>
+    refine { toInvCore := inv_w g i hc, name := ?_, armed := ?_ } <;>
+    · simp only [step]
+      split
+      · first | exact h.name | exact h.armed
+      · rename_i w hw
+        obtain ⟨pc, wk⟩ := w
+        cases pc <;> simp only [stepWaiter] <;> (repeat' split) <;> first | exact h.name | exact h.armed
+  | abandon i =>
+    refine { toInvCore := inv_abandon g i hc, name := ?_, armed := ?_ } <;>
+    · simp only [step]
+      split
+      · first | exact h.name | exact h.armed
+      · split
+        · first | exact h.name | exact h.armed
+        · first | exact h.name | exact h.armed
+        · split
+          · first | exact h.armed | (simp only [notifyOne]; split <;> exact h.name)
+          · first | exact h.name | exact h.armed
+  | d i =>
+    refine { toInvCore := core_d g i hc, name := ?_, armed := ?_ } <;>
+    · simp only [step]; split <;> first | exact h.name | exact h.armed
+  | succ =>
+    refine { toInvCore := core_succ g hc, name := ?_, armed := ?_ }
+    · simp only [step]
+      split
+      · rename_i hn
+        intro _
+        exact h.name (by rw [hn]; decide)
+      · exact h.name
+    · simp only [step]; split <;> exact h.armed
+  | unwind =>
+    refine { toInvCore := core_unwind g hc h.armed, name := ?_, armed := ?_ }
+    · simp only [step]
+      split
+      · exact h.name
+      · obtain ⟨sh, ex, setters, ws, drs⟩ := g
+        obtain ⟨pc, post, lateCalls, armed, unwound⟩ := ex
+        have hn := h.name
+        cases pc <;> simp only <;> (try split) <;> first | exact hn | (intro _; simp [EPc.stage])
+    · simp only [step]
+      split
+      · exact h.armed
+      · obtain ⟨sh, ex, setters, ws, drs⟩ := g
+        obtain ⟨pc, post, lateCalls, armed, unwound⟩ := ex
+        have ha := h.armed
+        simp only at ha
+        cases pc <;> simp only <;> (try split) <;>
+          first
+          | exact ha
+          | (intro _; exact ha (by simp [EPc.stage]))
+          | (intro hh; simp [EPc.stage] at hh)
+
+theorem inv_run (g : G) (sched : List Tid) (h : Inv g) : Inv (run g sched) := by
+  induction sched generalizing g with
+  | nil => exact h
+  | cons t l ih => exact ih _ (inv_step g t h)
+
+/-- Once a successor holds the freed name it keeps it: the exiting actor's cleanup does not run a
+second time and cannot unregister it. -/
+theorem successor_keeps_name_step (g : G) (tid : Tid) (h : Inv g) (hs : g.sh.name = .succ) :
+    (step g tid).sh.name = .succ := by
+  have h3 := h.name (by rw [hs]; decide)
+  cases tid with
+  | e =>
+    simp only [step]
+    rw [stepExiter_name _ _ _ (valid_not_unreg h.valid (by omega))]; exact hs
+  | s i =>
+    simp only [step]
+    split
+    · exact hs
+    · rename_i t ht
+      obtain ⟨call, rest⟩ := t
+      have hall := h.setters
+      simp only [settersBelowStopping] at hall
+      have hmem : (⟨call, rest⟩ : Setter) ∈ g.setters := List.mem_of_getElem? ht
+      have ht' := List.all_eq_true.mp hall _ hmem
+      simp only [Bool.and_eq_true] at ht'
+      cases call with
+      | none =>
+        cases rest with
+        | nil => exact hs
+        | cons s rest =>
+          simp only [stepSetter]
+          rw [stepSet_name _ _ _ (by intro _ _ e; cases e)]; exact hs
+      | some c =>
+        cases c with
+        | publish s =>
+          simp only [stepSetter]
+          rw [stepSet_name _ _ _ (by intro _ _ e; cases e)]; exact hs
+        | _ => simp at ht'
+  | w i =>
+    simp only [step]
+    split
+    · exact hs
+    · rename_i w hw
+      obtain ⟨pc, wk⟩ := w
+      cases pc <;> simp only [stepWaiter] <;> (repeat' split) <;> exact hs
+  | abandon i =>
+    simp only [step]
+    split
+    · exact hs
+    · split
+      · exact hs
+      · exact hs
+      · split
+        · simp only [notifyOne]; split <;> exact hs
+        · exact hs
+  | d i => simp only [step]; split <;> exact hs
+  | succ => simp only [step]; split <;> first | exact hs | simp_all
+  | unwind =>
+    simp only [step]
+    split
+    · exact hs
+    · split <;> (try split) <;> exact hs
+
+/-- **No lost wake-up (fairness form).** From any reachable state in which the exiter has
+finished, a waiter that is scheduled three times (whatever else runs in between, including other
+waiters being abandoned) and is not itself abandoned has returned. -/
+theorem returns_when_scheduled (g : G) (i : Nat) (sched : List Tid) (h : Inv g)
+    (hf : g.exiter.finished = true) (hi : i < g.waiters.length) (ha : isAbandoned g i = false)
+    (hcount : remaining g i ≤ sched.count (.w i)) (hna : Tid.abandon i ∉ sched) :
+    isReturned (run g sched) i = true := by
   induction sched generalizing g with
   | nil =>
     simp only [List.count_nil, Nat.le_zero_eq] at hcount
-    exact stage_finished (g := g) (by have := stage_le g.exiter.pc; omega)
+    exact returned_of_remaining_zero g i hi hcount ha
   | cons t l ih =>
     simp only [run, List.foldl_cons]
-    by_cases ht : t = .e
+    have hna' : Tid.abandon i ∉ l := fun hm => hna (List.mem_cons_of_mem _ hm)
+    have hta : t ≠ .abandon i := fun e => hna (e ▸ List.mem_cons_self)
+    have hlen := length_step g t
+    by_cases ht : t = .w i
     · subst ht
       simp only [List.count_cons_self] at hcount
-      apply ih (step g .e) (inv_step g _ h)
-      cases hf : g.exiter.finished
-      · have := exiter_progress g h hf; omega
-      · have h1 := finished_stage hf
-        have h2 := finished_stage (finished_step g .e hf)
+      refine ih (step g (.w i)) (inv_step g _ h) (finished_step g _ hf) (by omega)
+        (own_step_not_abandoned g i ha) ?_ hna'
+      by_cases hr : 0 < remaining g i
+      · have := waiter_progress g i h.toInvCore hf hr; omega
+      · have h0 : remaining g i = 0 := by omega
+        -- a returned waiter stays where it is
+        have : remaining (step g (.w i)) i = 0 := by
+          cases hw : g.waiters[i]? with
+          | none =>
+            have : step g (.w i) = g := by simp [step, hw]
+            rw [this]; exact h0
+          | some w =>
+            have e1 : remaining g i = w.pc.rank := by simp [remaining, pcOf, hw]
+            have e2 : remaining (step g (.w i)) i = (stepWaiter g.sh (okNow g) w).2.pc.rank := by
+              simp [remaining, pcOf_own_step g i w hw]
+            rw [e1] at h0; rw [e2]
+            obtain ⟨pc, wk⟩ := w
+            cases pc <;> simp_all [WPc.rank, stepWaiter]
         omega
-    · have hc : (t :: l).count .e = l.count .e := by simp [ht]
-      apply ih (step g t) (inv_step g _ h)
-      rw [other_steps_keep_exiter g t ht]; omega
+    · have hk := other_steps_keep_pc g t i ht hta
+      have hc : (t :: l).count (.w i) = l.count (.w i) := by
+        simp [List.count_cons, ht]
+      have hr : remaining (step g t) i = remaining g i := by simp [remaining, hk]
+      have hab : isAbandoned (step g t) i = isAbandoned g i := by simp [isAbandoned, hk]
+      refine ih (step g t) (inv_step g _ h) (finished_step g _ hf) (by omega) (hab ▸ ha) ?_ hna'
+      rw [hr]; omega
 
+/-- what the exiter still has to do; a panicking cleanup statement sets it back at most once -/
+def exiterDebt (g : G) : Nat := 15 - g.exiter.pc.stage + (if g.exiter.unwound then 0 else 4)
+
+theorem stage_finished {g : G} (h : g.exiter.pc.stage = 15) : g.exiter.finished = true := by
+  obtain ⟨sh, ex, st, ws, drs⟩ := g
+  obtain ⟨pc, post, lc, armed, unwound⟩ := ex
+  simp only at h ⊢
+  cases pc <;> (try rename_i c; cases c) <;> simp [EPc.stage] at h <;> rfl
+
+theorem unwound_step_e (g : G) : (step g .e).exiter.unwound = g.exiter.unwound := by
+  obtain ⟨sh, ex, st, ws, drs⟩ := g
+  obtain ⟨pc, post, lc, armed, unwound⟩ := ex
+  simp only [step]
+  cases pc <;> simp only [stepExiter] <;>
+    first
+    | rfl
+    | (rename_i c; generalize stepSet sh ws c = r; obtain ⟨a, b, c'⟩ := r; cases c' <;> rfl)
+    | (rename_i c rest; generalize stepSet sh ws c = r; obtain ⟨a, b, c'⟩ := r; cases c' <;> rfl)
+
+theorem debt_unwind (g : G) (h : Inv g) : exiterDebt (step g .unwind) ≤ exiterDebt g := by
+  obtain ⟨sh, ex, setters, ws, drs⟩ := g
+  obtain ⟨pc, post, lateCalls, armed, unwound⟩ := ex
+  have ha := h.armed
+  simp only at ha
+  simp only [step, exiterDebt]
+  cases unwound
+  · simp only [Bool.false_eq_true, if_false]
+    cases pc <;> simp only <;>
+      first
+      | exact Nat.le_refl _
+      | (have := ha (by simp [EPc.stage]); simp [this, EPc.stage])
+  · simp
+
+/-- The exit sequence always completes — also when one statement of `cleanup` panics and the
+lifecycle guard's `Drop` has to run `cleanup` again: whatever else is scheduled in between, after
+`exiterDebt g ≤ 19` steps of the exiter it has finished (`notify_one` of the final
+`set_status(Stopped)` executed). -/
+theorem exiter_finishes (g : G) (sched : List Tid) (h : Inv g)
+    (hcount : exiterDebt g ≤ sched.count .e) : (run g sched).exiter.finished = true := by
+  suffices hgen : ∀ g, Inv g → (g.exiter.finished = true ∨ exiterDebt g ≤ sched.count .e) →
+      (run g sched).exiter.finished = true from hgen g h (Or.inr hcount)
+  clear hcount h g
+  induction sched with
+  | nil =>
+    intro g h hc
+    rcases hc with hf | hc
+    · exact hf
+    · simp only [List.count_nil, Nat.le_zero_eq, exiterDebt] at hc
+      show g.exiter.finished = true
+      exact stage_finished (by have := stage_le g.exiter.pc; omega)
+  | cons t l ih =>
+    intro g h hc
+    simp only [run, List.foldl_cons]
+    apply ih (step g t) (inv_step g t h)
+    rcases hc with hf | hc
+    · exact Or.inl (finished_step g t hf)
+    · by_cases ht : t = .e
+      · subst ht
+        simp only [List.count_cons_self] at hc
+        cases hf : g.exiter.finished
+        · right
+          have := exiter_progress g h.toInvCore hf
+          have hu := unwound_step_e g
+          have := stage_le (step g .e).exiter.pc
+          simp only [exiterDebt, hu] at hc ⊢
+          omega
+        · exact Or.inl (finished_step g .e hf)
+      · have hcnt : (t :: l).count .e = l.count .e := by simp [ht]
+        right
+        by_cases hu : t = .unwind
+        · subst hu
+          have := debt_unwind g h
+          omega
+        · have := other_steps_keep_exiter g t ht hu
+          simp only [exiterDebt, this] at hc ⊢
+          omega
 
 /-! ### Initial states -/
 
 theorem initial_init (post : Bool) (late : List Nat) (setters : List (List Nat)) (n : Nat)
     (h : settersOk setters = true) : Initial (init post late setters n) := by
-  refine ⟨rfl, by simp [init, stStopping], rfl, rfl, ⟨rfl, rfl⟩, ?_, ?_⟩
+  refine ⟨rfl, rfl, rfl, by simp [init, stStopping], rfl, rfl, ⟨rfl, rfl⟩, ?_, ?_⟩
   · intro w hw
     simp only [init, List.mem_replicate] at hw
     exact hw.2
@@ -474,8 +868,9 @@ theorem initial_init (post : Bool) (late : List Nat) (setters : List (List Nat))
     simp [Function.comp, h l hl]
 
 theorem inv_initial (g : G) (h : Initial g) : Inv g := by
-  obtain ⟨h1, h2, h3, h4, ⟨h5, h6⟩, h7, h8⟩ := h
-  refine ⟨by simp [h1, EPc.valid], ?_, ?_, h8⟩
+  obtain ⟨h1, ha, hn, h2, h3, h4, ⟨h5, h6⟩, h7, h8⟩ := h
+  refine { valid := by simp [h1, EPc.valid], sh := ?_, ws := ?_, setters := h8,
+           name := fun hne => absurd hn hne, armed := fun _ => ha }
   · rw [h1]
     constructor <;> simp_all [EPc.stage, stStopping, stStopped] <;> omega
   · intro w hw
@@ -490,8 +885,8 @@ theorem hasPostStop_run (g : G) (l : List Tid) : (run g l).exiter.hasPostStop = 
     rw [ih]
     cases t with
     | e =>
-      obtain ⟨sh, ex, st, ws⟩ := g
-      obtain ⟨pc, p, lc⟩ := ex
+      obtain ⟨sh, ex, st, ws, drs⟩ := g
+      obtain ⟨pc, p, lc, armed, unwound⟩ := ex
       simp only [step]
       cases pc <;> simp only [stepExiter] <;>
         first
@@ -508,6 +903,13 @@ theorem hasPostStop_run (g : G) (l : List Tid) : (run g l).exiter.hasPostStop = 
         · rfl
         · rfl
         · split <;> rfl
+    | d k => simp only [step]; split <;> rfl
+    | succ => simp only [step]; split <;> rfl
+    | unwind =>
+      simp only [step]
+      split
+      · rfl
+      · split <;> (try split) <;> rfl
 
 theorem length_run (g : G) (l : List Tid) : (run g l).waiters.length = g.waiters.length := by
   induction l generalizing g with
